@@ -97,13 +97,16 @@ BomFile == FileRec("bom", "$b$first {{ 2 }}$r$\n", "")
 RtFail == FileRec("rtfail", "x\n{{ 1 / 0 }}", "")
 OutsideFiles == {[path |-> "t/cut.txt", src |-> "a\n@if(true)\nnever closed", kind |-> ""], [path |-> "t/illegal.txt", src |-> "a\n\n{{ 1 ~ 2 }}", kind |-> ""],
                  [path |-> "t/undef.txt", src |-> "{{ zz }}", kind |-> ""]}
-BaseCase == {[files |-> SetToSeq({FileRec(m, Cat(GoodFiles[m]), "") : m \in DOMAIN GoodFiles} \cup {OddFile, BomFile, RtFail, FileRec("aaa", "first:@component(\"~card\", {n: 2})", "")} \cup OutsideFiles), cfg |-> [dir |-> "t", ext |-> ".tw"],
-              load |-> [ok |-> TRUE, names |-> SetToSeq(GoodNames \cup {"odd", "bom", "rtfail", "aaa"})],
+BaseCase == {[files |-> SetToSeq({FileRec(m, Cat(GoodFiles[m]), "") : m \in DOMAIN GoodFiles} \cup {OddFile, BomFile, RtFail, FileRec("aaa", "first:@component(\"~card\", {n: 2})", ""),
+                                 FileRec("layouts/plainlay", "a layout that reserves nothing", ""), FileRec("usesplain", "@use(\"~plainlay\")ignored", "")} \cup OutsideFiles), cfg |-> [dir |-> "t", ext |-> ".tw"],
+              load |-> [ok |-> TRUE, names |-> SetToSeq(GoodNames \cup {"odd", "bom", "rtfail", "aaa", "layouts/plainlay", "usesplain"})],
               ops |-> HomeOp([kind |-> "out", out |-> GoodOut]) \o
                       <<[op |-> "EvalFile", name |-> "odd", data |-> <<>>, expect |-> [kind |-> "any"]],
                         [op |-> "EvalFile", name |-> "bom", data |-> <<>>, expect |-> [kind |-> "any"]],
                         \* a page that sorts before the component it uses; the component stays a template of its own
                         [op |-> "String", name |-> "aaa", data |-> <<>>, expect |-> [kind |-> "out", out |-> "first:[2other]"]],
+                        [op |-> "String", name |-> "layouts/plainlay", data |-> <<>>, expect |-> [kind |-> "out", out |-> "a layout that reserves nothing"]],
+                        [op |-> "String", name |-> "usesplain", data |-> <<>>, expect |-> [kind |-> "out", out |-> "a layout that reserves nothing"]],
                         [op |-> "String", name |-> "components/card", data |-> <<[k |-> "n", v |-> [t |-> "int", b |-> "z", o |-> 1]]>>, expect |-> [kind |-> "out", out |-> "[1one]"]],
                         [op |-> "EvalFile", name |-> "rtfail", data |-> <<>>, expect |-> [kind |-> "any"]],
                         [op |-> "EvalFile", name |-> "/t/cut.txt", data |-> <<>>, expect |-> [kind |-> "any"]],
